@@ -167,7 +167,12 @@ def format_datetime(dttm):
         zoned = pytz.utc.localize(dttm)
     else:
         zoned = dttm.astimezone(pytz.utc)
-    ts = zoned.strftime('%Y-%m-%dT%H:%M:%S')
+    # Format the fields ourselves: strftime('%Y') does not zero-pad years < 1000
+    # on all platforms, but STIX timestamps require a four-digit year.
+    ts = "{:04d}-{:02d}-{:02d}T{:02d}:{:02d}:{:02d}".format(
+        zoned.year, zoned.month, zoned.day,
+        zoned.hour, zoned.minute, zoned.second,
+    )
     precision = getattr(dttm, 'precision', Precision.ANY)
     precision_constraint = getattr(
         dttm, 'precision_constraint', PrecisionConstraint.EXACT,
